@@ -46,6 +46,7 @@ void record_violation(State &S, const std::string &kind, const std::string &labe
   VRec v; v.kind = kind; v.label = label; v.loc = loc; v.path = S.id; v.stack = stackstr(S);
   z3::model m(Z); bool have = false;
   try { have = solve(S, cond, &m); } catch (PathEnd &) {}
+  if (getenv("SXVM_DEBUG")) { fprintf(stderr, "--- violation %s %s: path condition\n", kind.c_str(), label.c_str()); for (auto &c : S.pc) fprintf(stderr, "  %s\n", c.to_string().c_str()); if (cond) fprintf(stderr, "  cond: %s\n", cond->to_string().c_str()); fprintf(stderr, "  have=%d model: %s\n", (int)have, have ? m.to_string().c_str() : "-"); }
   eval_inputs(S, have ? &m : nullptr, v.inputs); eval_obs(S, have ? &m : nullptr, v.obs);
   violations.push_back(std::move(v));
 }
